@@ -44,6 +44,31 @@ func verifVar(ev string, name string, v value) {
 	VerifTrace(ev, map[string]any{"s": name, "v": verifBasic(v)})
 }
 
+// verifDeclare reports a declaration together with the number of names the
+// scope holds afterwards.
+func verifDeclare(s *scope, name string, v value) {
+	if VerifTrace == nil {
+		return
+	}
+	VerifTrace("Declare", map[string]any{"s": name, "v": verifBasic(v), "n": len(s.values)})
+}
+
+// verifGet reports a variable read together with the number of scopes
+// between the current scope and the one that binds the name.
+func verifGet(s *scope, name string, v value) {
+	if VerifTrace == nil {
+		return
+	}
+	lvl := 0
+	for sc := s; sc != nil; sc = sc.outer {
+		if _, ok := sc.values[name]; ok {
+			break
+		}
+		lvl++
+	}
+	VerifTrace("Get", map[string]any{"s": name, "v": verifBasic(v), "n": lvl})
+}
+
 func verifBasic(v value) string {
 	switch t := v.(type) {
 	case *numVal, *stringVal, *boolVal:
